@@ -433,6 +433,26 @@ def run(ctx):
                         ctx.violation('ellipsis-directive', {
                             'what': 'doctest with directive %r: passed=%r, by construction %r' % (d, passed, exp), 'doctest': '\n'.join(lines),
                             'got': out, 'want': want, 'expected_pass': exp, 'theorem_or_correspondence': 'C06 on DocTest.run with the flag set by a directive'}, True)
+    # a want that BEGINS with the wildcard, followed by white space other than a plain blank (no-break space, em space, ideographic
+    # space, unit separator) and text: a want line, not a continuation of the source
+    for ws in ('\xa0', '\u2003', '\u3000', '\x1f', ' ', '\t'):
+        for out, tail, exp in (('alpha beta tail', 'tail', True), ('alpha beta', 'tail', False), ('tail', 'tail', True), ('alpha tail beta', 'tail', False)):
+            for sign in ('+', '-'):
+                lines = ['>>> # xdoctest: %sELLIPSIS' % sign, '>>> print(%r)' % out, '...' + ws + tail]
+                ex = doctest_example.DocTest(docsrc='\n'.join(lines), lineno=1)
+                with contextlib.redirect_stdout(io.StringIO()):
+                    try:
+                        passed = bool(ex.run(verbose=0, on_error='return')['passed'])
+                    except BaseException as e:      # noqa
+                        passed = 'raised %s' % type(e).__name__
+                ne2e += 1
+                want_pass = exp and sign == '+'
+                if ws in (' ', '\t'):
+                    continue        # '... tail' IS a continuation line by the doctest syntax: no expectation, only that nothing escapes
+                if passed != want_pass:
+                    ctx.violation('ellipsis-directive', {
+                        'what': 'a want that begins with the wildcard and %r: passed=%r, by construction %r' % (ws, passed, want_pass), 'doctest': '\n'.join(lines),
+                        'got': out, 'want': '...' + ws + tail, 'expected_pass': want_pass, 'theorem_or_correspondence': 'C06 on DocTest.run, want beginning with the wildcard'}, True)
     # the want of an expected exception: '...' is the same wildcard in its final line, in the message as in the type name, whichever
     # other leniency is switched on next to it
     for extra in ('', ', +IGNORE_EXCEPTION_DETAIL', ', +NORMALIZE_WHITESPACE', ', +NORMALIZE_REPR'):
